@@ -24,7 +24,7 @@ Definition crc_step (c : Z) : Z := if Z.odd c then Z.lxor (Z.shiftr c 1) crc_pol
 Definition crc_byte (c b : Z) : Z :=
   let c0 := Z.lxor c b in
   crc_step (crc_step (crc_step (crc_step (crc_step (crc_step (crc_step (crc_step c0))))))).
-Definition crc32 (bs : list Z) : Z := Z.lxor (fold_left crc_byte bs 4294967295) 4294967295.
+Definition crc32 (bs : list Z) : Z := (Z.lxor (fold_left crc_byte bs 4294967295) 4294967295) mod 4294967296.
 
 (** * Values as canonical byte strings *)
 Definition dec_val (bs : list Z) : option (list Z * list Z) :=
